@@ -216,6 +216,7 @@ CONSTANTS
   N = %d
   BigN = %d
   Canon = %s
+  Emit = %s
 INVARIANT History
 INVARIANT AdjugateInverse
 INVARIANT GramDeterminant
@@ -377,18 +378,19 @@ def family_lattice(rng, fam):
     raise ValueError(fam)
 
 
-def small_lattices():
-    """All L with entries in -1..1 and det > 0 (the range MC_Lattice enumerates)."""
-    import itertools
+def emitted_lattices(res):
+    """Lattices printed by MC_Lattice (action FromVectors with Emit): 'G|<<<<a, b, c>>, <<..>>, <<..>>>>'."""
+    import re
     out = []
-    for e in itertools.product((-1, 0, 1), repeat=9):
-        L = [list(e[0:3]), list(e[3:6]), list(e[6:9])]
-        if det3(L) > 0:
-            out.append(L)
-    return out
+    for line in res.printed:
+        if line.startswith("G|"):
+            v = [int(x) for x in re.findall(r"-?\d+", line[2:])]
+            if len(v) == 9:
+                out.append([v[0:3], v[3:6], v[6:9]])
+    return sorted(out)
 
 
-def make_recipes(ctx):
+def make_recipes(ctx, emitted=()):
     rng = ctx.rng
     recipes = []
 
@@ -396,10 +398,10 @@ def make_recipes(ctx):
         if r is not None:
             recipes.append(r)
     ar = not ctx.quick
-    n_rand = ctx.pick(110, 3000)
-    n_deg = ctx.pick(40, 1500)
-    n_gram = ctx.pick(40, 1500)
-    n_fam = ctx.pick(4, 100)
+    n_rand = ctx.pick(110, 1500)
+    n_deg = ctx.pick(40, 700)
+    n_gram = ctx.pick(40, 700)
+    n_fam = ctx.pick(4, 50)
     for _ in range(n_rand):
         add(recipe_for(rng, "L", rand_lattice(rng), "random-lattice", all_routes=ar))
     for _ in range(n_deg):
@@ -410,11 +412,12 @@ def make_recipes(ctx):
         for _ in range(n_fam):
             add(recipe_for(rng, "G", family_gram(rng, fam), "family-gram", all_routes=ar))
             add(recipe_for(rng, "L", family_lattice(rng, fam), "family-lattice", all_routes=ar))
-    small = small_lattices()
-    if ctx.quick:
-        small = rng.sample(small, 30)
+    small = list(emitted)
+    k = ctx.pick(30, 600)
+    if len(small) > k:
+        small = rng.sample(small, k)
     for L in small:
-        add(recipe_for(rng, "L", L, "mc-range-lattice", all_routes=ar))
+        add(recipe_for(rng, "L", L, "tlc-enumerated-lattice", all_routes=ar))
     # deliberately outside the domain (must come back OOD, never judged)
     add({"kind": "L", "L": [[6, 0, 0], [12, 1, 0], [0, 0, 1]], "G": None, "sn": 1, "sd": 1, "family": "triclinic",
          "routes": ["vectors", "params_rad"], "pts": [[1, 2, 3]], "source": "out-of-domain"})
@@ -426,21 +429,24 @@ CONSTS = "  K = %d\n  CondMax = %d\n" % (K, COND_MAX)
 
 def run(ctx):
     # Canon = first row 0 <= x <= y <= z: every Gram matrix of the full range is still visited
-    ctx.model_check("mc/MC_Lattice.tla", MC_CFG % (2, 1, "TRUE"),
-                    name="MC_Lattice(-2..2, first row canonical; BigInt cross-check on -1..1)", timeout=900)
+    res = ctx.model_check("mc/MC_Lattice.tla", MC_CFG % (2, 1, "TRUE", "TRUE"),
+                          name="MC_Lattice(-2..2, first row canonical; BigInt cross-check and emission on -1..1)",
+                          timeout=900)
+    emitted = emitted_lattices(res)
+    if not emitted:
+        raise tlc.TLCFailure("MC_Lattice emitted no lattice")
     if not ctx.quick:
-        ctx.model_check("mc/MC_Lattice.tla", MC_CFG % (2, 0, "FALSE"), name="MC_Lattice(-2..2, all)", timeout=1400)
-        ctx.model_check("mc/MC_Lattice.tla", MC_CFG % (3, 0, "TRUE"),
-                        name="MC_Lattice(-3..3, first row canonical)", timeout=1400)
-    recipes = make_recipes(ctx)
+        ctx.model_check("mc/MC_Lattice.tla", MC_CFG % (2, 0, "FALSE", "FALSE"), name="MC_Lattice(-2..2, all)",
+                        timeout=1400)
+    recipes = make_recipes(ctx, emitted)
     traces = pool_map(drive, recipes)
-    ctx.validate("trace/Trace_Lattice.tla", traces, consts=CONSTS, batch=4000, timeout=1200)
+    ctx.validate("trace/Trace_Lattice.tla", traces, consts=CONSTS, batch=1000, timeout=1400)
     ctx.rule = ("exact integer cells (lattice L with entries -6..6 and det > 0, or a positive definite integer "
                 "Gram matrix; rational scale) built through every applicable construction route of the real "
                 "UnitCell; non-trivial = at least one non-right angle (an off-diagonal Gram entry is non-zero)")
     ctx.explanation = ("MC_Lattice is exhaustive over its integer ranges (a design-level model); the cells "
-                       "driven through the implementation are sampled, except all det>0 lattices with entries "
-                       "in -1..1 in the thorough tier")
+                       "driven through the implementation are sampled (random, near-degenerate, per crystal family) "
+                       "plus lattices enumerated by TLC in MC_Lattice (entries -1..1, first row canonical)")
     ctx.assumptions = [
         "float arguments (lengths s*sqrt(G_ii), angles acos(G_ij/sqrt(G_ii G_jj))) are computed by the harness "
         "from the exact integers with correctly rounded libm calls; their rounding (<= 2 ulp) is covered by the slack",
